@@ -394,6 +394,10 @@ impl<N, E, H: BuildHasher + Default> DAG<N, E, H> {
       return Err(Error::CycleDetected);
     }
 
+    if self.node_info[src.0].children.contains(dst) { // If edge already exists short circuit, keeping its insertion order
+      return Ok(false);
+    }
+
     // Insert forward edge
     let mut no_prev_edge = self.node_info[src.0].children.insert(*dst);
     let upper_bound = self.node_info[src.0].topo_order;
